@@ -632,7 +632,7 @@ def gen_cases(rng, tier):
     else:
         plan = [(1, 50), (2, 50), (3, 2), (5, 1), (15, 7), (49, 50), (50, 50), (51, 50), (60, 7), (100, 50), (101, 50),
                 (120, 50), (130, 50), (150, 50), (151, 50)]
-        plan = plan * 2 + [(rng.randint(1, 140), rng.choice([50, 50, 50, 50, 17, 64])) for _ in range(100)]
+        plan = plan + [(rng.randint(1, 140), rng.choice([50, 50, 50, 50, 17, 64])) for _ in range(60)]
     for ns, bs in plan:
         cs.append(rand_coll(rng, ns, bs, heavy=(ns <= 12)))
     for _ in range(2 if q else 30):
